@@ -56,6 +56,17 @@ def make_interp():
         "inspection.isoptionaltype", lambda I, p, a, k: SBool(nullable(to_val(a[0]))),
         "isoptionaltype(t) <=> None is a member of the union t (C17 contract)")
 
+    # every other one-argument is* predicate of inspection.py is, for a routine, a callee taken by contract: a total boolean
+    # function of its argument (C17 states what each one answers).  Routines only branch on them or store the answer.
+    import ast as _ast
+    for node in I.src.toplevel("typelib.py.inspection"):
+        if isinstance(node, _ast.FunctionDef) and node.name.startswith("is") and len(node.args.args) == 1 and not node.args.kwonlyargs \
+                and f"typelib.py.inspection.{node.name}" not in I.stubs:
+            uf_ = z3.Function(f"inspection_{node.name}", Val, BoolS)
+            I.stubs[f"typelib.py.inspection.{node.name}"] = Stub(
+                f"inspection.{node.name}", (lambda u: lambda I, p, a, k: SBool(u(to_val(a[0]))))(uf_),
+                f"{node.name}(t): a total predicate of its argument (C17 contract)")
+
     def obj_getitem(I, path, obj, idx, merge=False):
         if isinstance(obj, Ctx):
             k = to_val(idx)
